@@ -561,7 +561,10 @@ func driveClient(run *sessionRun, pipelined bool, T time.Duration, r *rand.Rand)
 				}
 			case "stall":
 				full := encodeReq(k, &sReq{maj: 1, min: 4, bc: 1, writeOk: true, items: []sItem{{op: opActivate, payload: 0}}})
-				_, _ = c.Write(full[:12])
+				// fall silent inside the message, inside its first item header, or AT the message boundary (nothing sent at all)
+				if n := []int{12, 0, 7, 12, 1}[(k+run.cfg.sid)%5]; n > 0 {
+					_, _ = c.Write(full[:n])
+				}
 				// say nothing more: the server's read deadline must fire
 			default:
 				_, _ = c.Write([]byte{0x42, 0x00, 0x78, 0x01, 0x00, 0x00, 0x00, 0x10, 0xde, 0xad, 0xbe, 0xef, 0, 0, 0, 0, 1, 2, 3, 4, 5, 6, 7, 8})
